@@ -8,22 +8,25 @@ import (
 
 // GenCfg parametrises the control-flow generator.
 type GenCfg struct {
-	MaxDepth    int
-	MaxStmts    int     // statements per nested block
-	TopStmts    int     // statements per script body
-	ExprMax     int     // max leaves of a compound condition
-	CompoundP   int     // 1-in-N conditions are compound (0 = never)
-	Auto        AutoCfg // AutoVar commands that may be used as leaves / switch operands
-	AutoP       int     // 1-in-N leaves are AutoVar leaves (0 = never)
-	NoLabels    bool
-	NoGoto      bool
-	NoEndRet    bool
-	NoSwitch    bool
-	NoLoops     bool
-	SymCases    bool // switch case values may be symbols / hex
-	InlineText  bool // commands may carry an inline text / moves() argument
-	NoBreakTail bool // never generate statements after break in the same block
-	MaxLabels   int
+	MaxDepth           int
+	MaxStmts           int     // statements per nested block
+	TopStmts           int     // statements per script body
+	ExprMax            int     // max leaves of a compound condition
+	CompoundP          int     // 1-in-N conditions are compound (0 = never)
+	Auto               AutoCfg // AutoVar commands that may be used as leaves / switch operands
+	AutoP              int     // 1-in-N leaves are AutoVar leaves (0 = never)
+	NoLabels           bool
+	NoGoto             bool
+	NoEndRet           bool
+	NoSwitch           bool
+	NoLoops            bool
+	SymCases           bool // switch case values may be symbols / hex
+	InlineText         bool // commands may carry an inline text / moves() argument
+	NoBreakTail        bool // never generate statements after break in the same block
+	MaxLabels          int
+	PS                 int  // 1-in-N statements are poryswitch statements (0 = never)
+	PSNestedFallback   bool // nested poryswitches always have a '_' case
+	PSNoDirectContinue bool // never 'continue' as a direct statement of a poryswitch case
 }
 
 // DefaultCF is the control-flow profile of C01.
@@ -32,13 +35,15 @@ func DefaultCF() GenCfg {
 }
 
 type genCtx struct {
-	t      *rapid.T
-	cfg    GenCfg
-	prefix string
-	nLabel int
-	nCmd   *int
-	labels []string
-	gotos  []*Cmd
+	t       *rapid.T
+	cfg     GenCfg
+	prefix  string
+	nLabel  int
+	nCmd    *int
+	labels  []string
+	gotos   []*Cmd
+	psCase  bool // the next block() call generates the direct body of a poryswitch case
+	psDepth int
 }
 
 var flagCmpVals = []string{"true", "false", "TRUE", "FALSE"}
@@ -195,9 +200,15 @@ func (g *genCtx) caseVal(k int) []string {
 func (g *genCtx) block(depth int, inLoop, inBrk bool, maxStmts int, braceEnd bool) *Block {
 	t := g.t
 	b := &Block{Stmts: []*Stmt{}}
+	direct := g.psCase
+	g.psCase = false
 	n := rapid.IntRange(0, maxStmts).Draw(t, "nstmts")
 	for i := 0; i < n; i++ {
 		last := i == n-1
+		if g.cfg.PS > 0 && rapid.IntRange(1, g.cfg.PS).Draw(t, "isps") == 1 && g.psDepth < 2 {
+			b.Stmts = append(b.Stmts, &Stmt{K: "ps", PS: g.psStmt(depth, inLoop, inBrk)})
+			continue
+		}
 		k := rapid.IntRange(0, 17).Draw(t, "sk")
 		if depth >= g.cfg.MaxDepth && k >= 4 && k <= 8 {
 			k = 0
@@ -245,7 +256,7 @@ func (g *genCtx) block(depth int, inLoop, inBrk bool, maxStmts int, braceEnd boo
 				b.Stmts = append(b.Stmts, sCmd(g.cmd()))
 			}
 		case 10:
-			if inLoop && last && braceEnd {
+			if inLoop && last && braceEnd && !(direct && g.cfg.PSNoDirectContinue) {
 				b.Stmts = append(b.Stmts, sContinue())
 			} else {
 				b.Stmts = append(b.Stmts, sCmd(g.cmd()))
@@ -348,4 +359,42 @@ func resolveGotos(gotos []*Cmd, labels []string) {
 			gt.Args[0].Toks[0] = "External_Label"
 		}
 	}
+}
+
+var psKeys = []string{"A", "B", "1", "_"}
+
+// psStmt draws a statement poryswitch. Cases in colon form hold exactly one statement.
+func (g *genCtx) psStmt(depth int, inLoop, inBrk bool) *PSStmt {
+	t := g.t
+	g.psDepth++
+	defer func() { g.psDepth-- }()
+	ps := &PSStmt{Var: rapid.SampledFrom([]string{"V", "W"}).Draw(t, "psvar")}
+	keys := rapid.Permutation(psKeys).Draw(t, "pskeys")
+	keys = keys[:rapid.IntRange(1, 4).Draw(t, "npskeys")]
+	if g.psDepth > 1 && g.cfg.PSNestedFallback {
+		has := false
+		for _, k := range keys {
+			has = has || k == "_"
+		}
+		if !has {
+			keys = append(keys, "_")
+		}
+	}
+	for _, k := range keys {
+		c := &PSStmtCase{Key: k, Brace: rapid.Bool().Draw(t, "brace")}
+		g.psCase = true
+		if c.Brace {
+			c.Body = g.block(depth+1, inLoop, inBrk, g.cfg.MaxStmts, true)
+		} else {
+			// the single statement is followed by the next case key or the closing brace: no trailing continue
+			c.Body = g.block(depth+1, false, inBrk, 1, false)
+			if len(c.Body.Stmts) == 0 {
+				c.Body.Stmts = append(c.Body.Stmts, sCmd(g.cmd()))
+			}
+			// a label is a statement of its own; "key: Label:" is fine
+		}
+		g.psCase = false
+		ps.Cases = append(ps.Cases, c)
+	}
+	return ps
 }
